@@ -9,6 +9,9 @@ EVERY provided stage input and the returned workflow output are validated with t
 """
 
 T = "Arca.Props.C08."
+TI = "Arca.Props.C08Infer."
+INFER_PINS = ["infer_infer__OutputSchema", "infer_infer__Scope", "infer_infer__Type", "infer_infer__mapType",
+              "infer_infer__objectType", "infer_infer__sliceType", "infer_infer__sliceItemType"]
 
 # the engine-generated outputs (non-dynamic rows of Arca.Expected.declaredRows): each must be validated at least once
 # per run of the `typed` stream, otherwise the run says nothing about it (reported as a note, not as a violation)
@@ -103,6 +106,38 @@ def mon_c08_goapi(case, verdict, chk):
         chk.violation("C08:go-literal-altered", "an %s was returned as %s" % (what, case.get("returned")), replay)
 
 
+def mon_c08_infer(case, verdict, chk):
+    """schema inference for outputs (internal/infer): the schema the REAL infer.Type infers from a value has to accept that value
+    (the real Unserialize, which is what handleOutput applies to the returned output).  The model (Arca.Model.Infer) predicts
+    both; `arcadrv infer` reports any disagreement as `diff`.  Where model and code AGREE that the inferred schema rejects its
+    own value, the property fails of both: a concrete violation (the literal is the replay)."""
+    if case.get("kind") != "infer":
+        return
+    det = (verdict or {}).get("detail") or {}
+    if not isinstance(det, dict):
+        det = {}
+    tag = "infer:%s" % ("refused" if "infer_err" in case else ("accepted" if case.get("accepted") else "schema-rejects-own-value"))
+    chk.hist[tag] = chk.hist.get(tag, 0) + 1
+    chk.hist["infer-shape:" + str(case.get("shape"))[:40]] = chk.hist.get("infer-shape:" + str(case.get("shape"))[:40], 0) + 1
+    if "infer_err" in case or case.get("accepted") is not False:
+        return
+    replay = {"kind": "impl-counterexample", "case": case, "model": det,
+              "replay_harness": ["infer", "-seed", str(case.get("id", "infer-0-0").split("-")[1]), "-n",
+                                 str(int(case.get("id", "infer-0-0").split("-")[2]) + 1), "-skip", case.get("id", "infer-0-0").split("-")[2]],
+              "meaning": "a workflow whose output (without outputSchema) evaluates to this value is accepted and the run ends with "
+                         "'bug: output schema cannot unserialize output data'"}
+    if det.get("compared_accept") and det.get("model_accepts") is False and det.get("homog") is False:
+        # predicted by the model: the item type of a list is the type of its first item (sliceItemType compares TypeID only)
+        chk.violation("C08:inferred-list-item-type-from-first-item",
+                      "the schema inferred from %s is %s and rejects the value itself: %s"
+                      % (str(case.get("shape")), str(case.get("ty"))[:120], str(case.get("accept_err"))[:200]), replay)
+    elif det.get("compared_accept") is False:
+        chk.violation("C08:inferred-schema-rejects-own-value:cross-kind",
+                      "the schema inferred from %s is %s and rejects the value itself (items of different leaf kinds under one list): %s"
+                      % (str(case.get("shape")), str(case.get("ty"))[:120], str(case.get("accept_err"))[:200]), replay)
+    # any other rejection is a `diff` of the driver and reported as such
+
+
 # ---- streams ---------------------------------------------------------------------------------------------------------------
 
 def _errcap(facts):
@@ -179,14 +214,23 @@ SPEC = {
         T + "serializedOutput_pinned", T + "serializedOutput_model",
         T + "messages_key_does_not_conform", T + "missing_required_key_does_not_conform", T + "wrong_kind_does_not_conform",
         T + "struct_output_needs_serialization",
+        TI + "inferred_schema_accepts_homogeneous_value_partial", TI + "inferred_object_accepts_fields_partial",
+        TI + "list_item_type_is_first_items", TI + "accepted_item_has_same_type_id",
+        TI + "inferred_schema_can_reject_its_own_value", TI + "inferred_schema_can_reject_nested_list", TI + "kind_ranges_ordered",
     ],
-    "pins": RUNLOOP_PINS + ["workflow_workflow__serializedOutput"],
+    "pins": RUNLOOP_PINS + ["workflow_workflow__serializedOutput"] + INFER_PINS,
     "streams": [S_LOOP, S_ENGINE, S_TYPED, S_EVALPOS,
                 # workflows built through the Go API: literals of every Go integer / float kind (edges of their ranges), bool,
                 # string, as a field, inside a list and inside a map of an output; the schema inferred from a literal accepts it
                 {"name": "goapi", "harness": lambda t, s: ["goapi"], "driver": None, "monitor": mon_c08_goapi,
                  "nontrivial": lambda c: bool(c.get("accepted")),
-                 "sample": lambda c: {k: c.get(k) for k in ("id", "literal", "go_type", "position", "accepted", "returned", "err")}}],
+                 "sample": lambda c: {k: c.get(k) for k in ("id", "literal", "go_type", "position", "accepted", "returned", "err")}},
+                # schema inference for outputs: the real infer.Type + the real Unserialize of the inferred schema on generated typed
+                # literal trees, against Arca.Model.Infer (inferred type in canonical text, acceptance verdict, Scope's root check)
+                {"name": "infer", "harness": lambda t, s: ["infer", "-n", str(20000 if t == "thorough" else 3000), "-seed", str(s + 41)],
+                 "driver": lambda f: ["infer"], "monitor": mon_c08_infer,
+                 "nontrivial": lambda c: c.get("kind") == "infer" and str(c.get("shape", "")).startswith(("list(list", "list(obj", "obj/2", "obj/3", "obj/4")),
+                 "sample": lambda c: {k: c.get(k) for k in ("id", "shape", "ty", "accepted", "accept_err", "infer_err")}}],
     "rule": ("run-loop histories generated by scripted providers over generated workflows (distinct = distinct workflow text + "
              "event history; non-trivial = at least one step does not end in success); whole-engine runs of generated workflows with "
              "the scripted deployer/plugin (distinct = distinct workflow text + input; non-trivial = some step does not succeed or more "
@@ -197,5 +241,8 @@ SPEC = {
              "closed, each referencing the engine-generated output from a workflow output; every reported stage output, every provided "
              "stage input and the returned output are validated with the real declared schemas (distinct = workflow text + "
              "sub-workflow + behaviours + input; non-trivial = an engine-generated output other than enabling.resolved / "
-             "starting.started was validated)"),
+             "starting.started was validated); infer stream: generated trees of typed Go literals (strings, six integer kinds, floats, "
+             "bools, nil, slices generated as variations of their first item, string-keyed maps; depth <= 4), the real infer.Type / "
+             "Scope and the real Unserialize of the inferred schema against the Lean model (distinct = distinct literal tree; "
+             "non-trivial = a list of lists / objects or an object with at least two fields)"),
 }
